@@ -905,6 +905,7 @@ def check_k6_k7(chk, m, cfg):
     # (its result tested against -1), that character is compared with an editing character or stored into the line.  A fetch whose
     # result is only tested against -1 and then dropped (a drain loop) loses input the user has typed
     n_taken = 0
+    n_quiet = 0
     for start, p in segs:
         for k, e in enumerate(p.events):
             if e.kind != "call" or e.callee not in ("console_getch", "ringbuf_get") or e.res is None:
@@ -959,6 +960,7 @@ def check_k6_k7(chk, m, cfg):
                     if not (isinstance(e2.callee, str) and (e2.callee in _CT or e2.callee == "__ctype_b_loc")):
                         quiet = False
             if quiet:
+                n_quiet += 1
                 cs = [(c, t) for c, t, i_ in p.conds if (i_ is None or i_.op != "switch") and paths.contains(c, lambda x: x == res)]
                 sw = [1 for c, t, i_ in p.conds if i_ is not None and i_.op == "switch" and paths.contains(c, lambda x: x == res)]
                 sid_ = "console_run[%s] %s..%s %s" % (cfg, start.lstrip("%"), p.end, e.inst.loc)
@@ -988,6 +990,10 @@ def check_k6_k7(chk, m, cfg):
                    "the character fetched at %s is known to be a character (not -1) and is then dropped: whatever the user had typed "
                    "ahead is thrown away and never reaches a command line" % e.inst.loc, e.inst.loc, fn.name)
     chk.expect("K6", "segments of console_run that take a character out of the ring [%s]" % cfg, n_taken, 1)
+    # (K6.char-stored: none is feasible on the unchanged tree, so the count is recorded, not required; selftest/mutants/C15.json
+    # keeps positive examples that must fire on every self-test run)
+    chk.expect("K6.char-stored", "feasible segments that take a character and leave the line alone, each decided per ordinary "
+               "character [%s]" % cfg, n_quiet, 0)
     # K7
     for name, first, then in (("console_putchar", "ringbuf_put", "fibre_run_atomic"), ("console_process", "ringbuf_put", "console_run")):
         f = m.fn(name)
@@ -1615,7 +1621,9 @@ def run(chk):
     chk.rule("K3", "invariant 1 <= argc <= lengthof(argv)-1 at the tokeniser's loop head; every store to argv[] has an index in [0, lengthof(argv)-1]")
     chk.rule("K4", "every constant array subscript (GEP step) in console.c is inside the declared array")
     chk.rule("K5", "console_register: full test guards all table stores; NULL test precedes every strcmp on a table name; find_command matches with strcmp == 0")
-    chk.rule("K6", "execute path: do_tokenize -> find_command -> cmd->fn -> do_prompt; do_prompt clears the scratch line and resets bufp")
+    chk.rule("K6", "execute path: do_tokenize -> find_command -> cmd->fn -> do_prompt; do_prompt clears the scratch line and resets bufp; "
+             "a character taken from the ring reaches the line editor, and no segment that leaves the line alone admits tab, space or a "
+             "printable character (K6.char-stored)")
     chk.rule("K8", "do_tokenize, evaluated per character class, agrees step by step with the reference transducer (split at unquoted white space; "
              "a quoted argument opens after a gap and closes at the SAME quote character; at most lengthof(argv) entries) on every "
              "line whose tokenisation the property determines; argv[0] is the line start; unused entries are empty strings")
